@@ -1262,6 +1262,14 @@ class TexArgs(list):
             arg = TexGroup.parse(arg)
         return arg
 
+    def __index_all(self, arg):
+        """Index of this very argument object in ``.all`` (arguments compare
+        equal by text, so look for the object itself first)."""
+        for j, other in enumerate(self.all):
+            if other is arg:
+                return j
+        return self.all.index(arg)
+
     def append(self, arg):
         """Append whitespace, an unparsed argument string, or an argument
         object.
@@ -1322,18 +1330,16 @@ class TexArgs(list):
         """
         arg = self.__coerce(arg)
 
+        # normalize the index the way ``list.insert`` does
+        n = len(self)
+        i = max(n + i, 0) if i < 0 else min(i, n)
+
+        # position in ``.all``: right before the argument currently at ``i``
+        index_all = len(self.all) if i == n else self.__index_all(self[i])
+
         if isinstance(arg, (TexGroup, TexCmd)):
             super().insert(i, arg)
-
-        if len(self) <= 1:
-            self.all.append(arg)
-        else:
-            if i > len(self):
-                i = len(self) - 1
-
-            before = self[i - 1]
-            index_before = self.all.index(before)
-            self.all.insert(index_before + 1, arg)
+        self.all.insert(index_all, arg)
 
     def remove(self, item):
         """Remove either an unparsed argument string or an argument object.
